@@ -21,7 +21,9 @@ RULE = ('detect: contents written by the real writers (fasta, stockholm, gff, sj
         'text file / path, with sep / outfmt options.  ext: every declared extension and near misses.  resolve: names x archive option. '
         'kw: keyword dicts through every shortcut.  extarg / wresolve: detect_ext on non-string arguments and the write-side decision '
         '(to string / handle / file / archive, format from fmt or extension).  render: the writer / renderer models of the soundness '
-        'theorems (render_xsv, render_fasta, render_stockholm, render_gff, render_hits) against the real writers.  hist: histories of 4-20 calls in one process on shared BytesIO/StringIO handles '
+        'theorems (render_xsv, render_fasta, render_stockholm, render_gff, render_hits, render_mmseqs4, render_blast7, render_infernal) against the real writers / the harness renderers, with the real '
+        'reader (format omitted) finding exactly the rendered hits.  plan: read / read_fts on a handle at an offset with fmt omitted, given '
+        'and given in upper case: format used and equality with a fresh read of the rest.  hist: histories of 4-20 calls in one process on shared BytesIO/StringIO handles '
         '(same detect twice, other options / other chain in both orders, fresh handle, in-place same-length edit then detect again, '
         'the same handle read twice and iterated, mutation of a read result, detect_ext with alternating what, one object written with '
         'several keyword dicts, archive/gzip round trips), each detect/ext step compared with the pure model on the content the handle '
@@ -783,6 +785,42 @@ def gen_cases(rng, tier):
             n = rng.choice([1, 2, 5, 40])
             rows = [_hit(rng, frac=(kind == 'mmseqs0'), lowid=(kind == 'blast6low')) for _ in range(n)]
             cases.append({'kind': 'render', 'fmt': 'hits', 'sep': ',' if kind == 'blast10' else '\t', 'rows': rows})
+    for _ in range(600 if thorough else 90):
+        k = rng.choice(['mmseqs4', 'blast7', 'infernal'])
+        n = rng.choice([1, 2, 5])
+        if k == 'mmseqs4':
+            names = 'query target fident alnlen mismatch gapopen qstart qend tstart tend evalue bits'.split()
+            parse = True
+            if rng.random() < 0.3:
+                names = rng.sample(MMSEQS_OPT + ['qstart', 'qend', 'tstart', 'tend', 'query', 'target'], rng.choice([1, 3, 4, 6]))
+                parse = False
+            cases.append({'kind': 'render', 'fmt': k, 'names': names, 'rows': [_hit(rng, frac=True)[:len(names)] for _ in range(n)], 'parse': parse})
+        elif k == 'blast7':
+            prog = rng.choice(['BLASTN', 'TBLASTN', 'BLASTP', 'blastn', 'MEGABLAST'])
+            comments = ['# Query: q1 ' + rng.choice(['', 'some description']), '# Database: db.fasta',
+                        '# Fields: query id, subject id, % identity, alignment length, mismatches, gap opens, q. start, q. end, s. start, '
+                        's. end, evalue, bit score', '# %d hits found' % n][:rng.choice([4, 4, 4, 2, 0])]
+            cases.append({'kind': 'render', 'fmt': k, 'prog': prog, 'ver': rng.choice(['2.15.0+', '2.9.0+']), 'comments': comments,
+                          'rows': [_hit(rng) for _ in range(n)], 'parse': len(comments) == 4})
+        else:
+            text = synth(rng, 'infernal' + rng.choice('123'))
+            ls = text.split('\n')
+            cases.append({'kind': 'render', 'fmt': k, 'l0': ls[0], 'l1': ls[1], 'lines': [x for x in ls[2:] if x], 'parse': True})
+    # --- fmt given / omitted: which plugin reads the handle from where
+    for _ in range(1500 if thorough else 200):
+        r = rng.random()
+        if r < 0.5:
+            w = r_writer_case(rng)
+            w.pop('kw', None)
+            content, what, fmt, sep = write_content(w), w['what'], w['fmt'], None
+        elif r < 0.9:
+            kind = rng.choice([k for k in SYNTH if k != 'blast6low'])
+            content, what, fmt, sep = synth(rng, kind), 'fts', SYNTH_FMT[kind], (',' if kind == 'blast10' else None)
+        else:
+            content, what, fmt, sep = rng.choice(['xyz\n', 'no format here', '12 34\n']), rng.choice(['seqs', 'fts']), None, None
+        junk = rng.choice(['', '', 'JUNK\n', '>x\n'])
+        cases.append({'kind': 'plan', 'what': what, 'content': junk + content, 'offset': len(junk), 'h': rng.choice(['bytes', 'str']), 'sep': sep,
+                      'fmt': rng.choice([None, None, fmt, fmt.upper() if fmt else None])})
     # --- a binary third-party plugin in front of the chain is skipped for text handles
     for _ in range(300 if thorough else 40):
         content = rng.choice([synth(rng, rng.choice(SYNTH)), r_adversarial(rng), 'ATG' + r_adversarial(rng), write_content(r_writer_case(rng))])
@@ -1171,8 +1209,41 @@ def impl_render(case):
     if fmt == 'gff':
         kw = {'header': case['header']} if case.get('header') else {}
         return mk_fts(case['obj']).tofmtstr('gff', **kw)
-    # the synthetic hit-table renderer of this harness
-    return ''.join(case['sep'].join(r) + '\n' for r in case['rows'])
+    if fmt == 'hits':
+        # the synthetic hit-table renderer of this harness
+        return ''.join(case['sep'].join(r) + '\n' for r in case['rows'])
+    import sugar
+    if fmt == 'mmseqs4':
+        text = '\t'.join(case['names']) + '\n' + ''.join('\t'.join(r) + '\n' for r in case['rows'])
+        n = len(case['rows'])
+    elif fmt == 'blast7':
+        text = ''.join(l + '\n' for l in ['# %s %s' % (case['prog'], case['ver'])] + case['comments']) + ''.join('\t'.join(r) + '\n' for r in case['rows'])
+        n = len(case['rows'])
+    else:
+        text = ''.join(l + '\n' for l in [case['l0'], case['l1']] + case['lines'])
+        n = len([l for l in case['lines'] if not l.startswith('#')])
+    if case.get('parse'):
+        # the real reader, format omitted, must find exactly the rendered hits
+        fts = sugar.read_fts(io.StringIO(text))
+        want = {'mmseqs4': 'mmseqs', 'blast7': 'blast', 'infernal': 'infernal'}[fmt]
+        assert len(fts) == n and all(ft.meta._fmt == want for ft in fts), 'real reader: %d features, formats %r' % (len(fts), set(ft.meta._fmt for ft in fts))
+    return text
+
+
+def impl_plan(case):
+    import sugar
+    rd = sugar.read if case['what'] == 'seqs' else sugar.read_fts
+    kw = {'sep': case['sep']} if case.get('sep') else {}
+    f = _mk_handle(case['h'], case['content'])
+    f.seek(case['offset'])
+    objs = rd(f, case['fmt'], **kw)
+    assert len(objs) > 0
+    used = set(o.meta._fmt for o in objs)
+    assert len(used) == 1, used
+    used = used.pop()
+    # the plugin must have read exactly the rest of the handle: same object as a fresh handle over the rest with that format
+    ref = rd(_mk_handle('bytes', case['content'][case['offset']:]), used, **kw)
+    return [used, case['offset'] if _cj(objs) == _cj(ref) else -1]
 
 
 def impl(case):
@@ -1198,6 +1269,8 @@ def impl(case):
         return impl_render(case)
     if k == 'hist':
         return impl_hist(case)
+    if k == 'plan':
+        return impl_plan(case)
     if k == 'writerfail':
         return {'e': case['err']}
     if k == 'transport':
@@ -1245,6 +1318,9 @@ def model_term(case):
         return 'out (run_C03_kw %s %s %s)' % (coq_N(WHAT[case['what']]), ENTRIES[case['entry']], kw)
     if k == 'hist':
         return 'out (run_C03_hist %s)' % coq_list(_hist_model_steps(case))
+    if k == 'plan':
+        return 'out (run_C03_plan %s %s %s %s %s %s)' % (coq_N(WHAT[case['what']]), _optbyte(case.get('sep')), coq_bool(case['h'] == 'bytes'),
+                                                       coq_nat(case['offset']), coq_opt(case['fmt'], coq_bs), coq_bs(case['content']))
     if k == 'render':
         fmt = case['fmt']
         if fmt in ('tsv', 'csv'):
@@ -1259,7 +1335,15 @@ def model_term(case):
             pre = '##gff-version 3\n' + (case.get('header') or '')
             body = text[len(pre):] if text.startswith(pre) else 'WRITER OUTPUT DOES NOT START WITH THE PRAGMA AND HEADER'
             return 'out (run_C03_render_gff %s %s)' % (coq_bs(case.get('header') or ''), coq_bs(body))
-        return 'out (run_C03_render_hits %s %s)' % ('x%02x' % ord(case['sep']), coq_list([coq_list([coq_bs(x) for x in r]) for r in case['rows']]))
+        rows_t = lambda rows: coq_list([coq_list([coq_bs(x) for x in r]) for r in rows])
+        if fmt == 'mmseqs4':
+            return 'out (run_C03_render_mmseqs4 %s %s)' % (coq_list([coq_bs(x) for x in case['names']]), rows_t(case['rows']))
+        if fmt == 'blast7':
+            return 'out (run_C03_render_blast7 %s %s %s %s)' % (coq_bs(case['prog']), coq_bs(case['ver']), coq_list([coq_bs(x) for x in case['comments']]),
+                                                              rows_t(case['rows']))
+        if fmt == 'infernal':
+            return 'out (run_C03_render_infernal %s %s %s)' % (coq_bs(case['l0']), coq_bs(case['l1']), coq_list([coq_bs(x) for x in case['lines']]))
+        return 'out (run_C03_render_hits %s %s)' % ('x%02x' % ord(case['sep']), rows_t(case['rows']))
     if k in ('writerfail', 'transport'):
         return 'out (VL [VB true; VNone])'
     raise ValueError(k)
@@ -1362,6 +1446,8 @@ def nontrivial(case, got):
         return 'extarg:%s' % case['ft']
     if k == 'hist':
         return 'hist:' + ','.join(sorted(set(st['op'] for st in case['steps'])))
+    if k == 'plan':
+        return 'plan:%s:%s' % (case['fmt'], got[0] if isinstance(got, list) else 'exc')
     if k == 'render':
         return 'render:%s:%s' % (case['fmt'], 'long' if isinstance(got, str) and len(got) > 1000 else 'short')
     if k == 'kw':
@@ -1633,30 +1719,32 @@ def extra_checks(rng, tier, cov):
     cov['transport_note'] = 'transport independence is relational testing only (partial)'
 
 
-LEVEL_TEXT = ('Machine-checked Coq theorems (19, no axioms) over an executable model of sugar._io detection: detect() restores the '
-              'position of any handle and equals "first accepting sniffer of the regenerated FMTS_ALL chain" on the remaining content '
-              'for text and binary handles; FASTA / Stockholm / GFF3 output of writer models (first line as a function of the object) and '
-              'contents with the SJSON / GenBank first-line shape are detected as that format under every option record; TSV and CSV '
-              'written by sugar (writer model render_xsv, compared with the real pandas output on every run) are detected as tsv / csv '
-              'for tables of ANY length, incl. beyond the 1000-character sniffing window whose last cut line is dropped, with rejection '
-              'lemmas for every earlier sniffer of the chain (gff, genbank, infernal, mmseqs, blast; for csv also tsv); the documented '
-              'BLAST/MMseqs2 discriminator is proved at sniffer level (on a well-formed 12-column first line is_fts_mmseqs / '
-              'is_fts_blast return exactly the fraction / percentage range test of the identity column, with exact float() rounding '
-              'thresholds); every declared filename extension selects its own format (finite theorem over regenerated tables + general '
-              'splitext lemma); keyword options reach the plugin unchanged and identically through write, tofmtstr and the object '
-              'methods; the _resolve_fname decision (glob > archive > gzip > plain) is specified. Model and code are tied on every run '
-              'by differential testing of every modelled function (all reachable statements executed in the quick tier). Transport '
-              'independence (path, Path, handles, gzip, zip/tar archives, glob, iter_/read, fromfmtstr, CLI convert/convertf, write '
-              'variants) is relational testing only.')
-LEVEL_NOTE = ('PARTIAL: (1) transport independence is tested, not proved (gzip/shutil/glob/tempfile/TextIOWrapper are trusted CPython); '
-              '(2) whole-chain detect soundness for BLAST 6/7/10, MMseqs2 0/4 and Infernal 1/2/3 renderings is covered by the model/code '
-              'correspondence and the python oracle only -- proved is the sniffer-level discriminator '
-              '(C03_hit_table_discriminator_partial); (3) TSV theorem needs >= 4 columns, both xsv theorems exclude exactly-12-column '
-              'headers and a first column named locus* (guards spelled in wf_xsv); (4) SJSON / GenBank soundness is over first-line shape '
-              'predicates checked against the real writer / renderer on every run, not over writer models. Domain: printable ASCII + tab '
-              '+ newline contents, sep absent or one character, non-empty collections, first BLAST hit with identity > 1 %, outfmt 10 with '
+LEVEL_TEXT = ('Machine-checked Coq theorems (29, no axioms) over an executable model of sugar._io: detect() restores the position of any '
+              'handle and equals "first accepting sniffer of the regenerated FMTS_ALL chain" on the remaining content for text and '
+              'binary handles; WHOLE-CHAIN detection soundness detect(render_d x) = d, with rejection lemmas for every earlier sniffer, '
+              'for FASTA / Stockholm / GFF3 (writer models), SJSON / GenBank (first-line shapes), TSV / CSV of any length incl. beyond '
+              'the 1000-character window (writer model compared with pandas output), BLAST outfmt 6 / 10 and MMseqs2 fmtmode 0 (with the '
+              'documented identity discriminator as hypothesis, exact float() rounding thresholds), MMseqs2 fmtmode 4 (name row), BLAST '
+              'outfmt 7 (comment lines) and Infernal tblout 1/2/3 (header + ruler); every declared filename extension selects its own '
+              'format; the write-side decision (archive / to-string / handle / file, fmt option or extension, the three error cases) '
+              'equals a declarative table, fmt= wins, writing by extension selects the declared format also for Path and archives; '
+              'reading with fmt omitted hands the same handle state and options to the same plugin as reading with the detected fmt '
+              'given, and fails exactly when nothing is detected; keyword options reach the plugin unchanged and identically through '
+              'write, tofmtstr and the object methods; the _resolve_fname decision (glob > archive > gzip > plain) is specified. Model '
+              'and code are tied on every run by differential testing of every modelled function (all reachable statements executed in '
+              'the quick tier), renderer models against the real writers / readers, and histories of calls on shared state. Transport '
+              'independence is relational testing only.')
+LEVEL_NOTE = ('PARTIAL / TESTED ONLY: (1) transport independence (path, Path, handles, gzip, zip/tar archives, glob, iter_/read, '
+              'fromfmtstr, CLI convert/convertf, write variants) -- gzip/shutil/glob/tempfile/TextIOWrapper/argparse are trusted CPython; '
+              'only the name decision, the write decision and the handle-state equivalence are proved at model level; (2) what the plugins '
+              'do with the content after dispatch (the readers/writers themselves belong to C01/C02/C10/C11/C14/C15); (3) guards spelled in '
+              'the wf predicates: TSV and MMseqs2-4 need >= 4 columns, xsv excludes exactly-12-column headers and a first column named '
+              'locus*, hit fields are blank-free with digit-only integer columns, BLAST-7 needs >= 100 characters of comment lines, '
+              'Infernal header >= 100 characters; outside them detection is covered by the correspondence only; (4) SJSON / GenBank '
+              'soundness is over first-line shape predicates checked against the real writer / renderer each run; (5) sniffers called with '
+              'an outfmt= option (column selections) are modelled and differential-tested, the soundness theorems are for outfmt omitted. '
+              'Domain: printable ASCII + tab + newline contents, sep absent or one character, non-empty collections, outfmt 10 with '
               'sep=",". URL download branch exercised with a stubbed requests.get only. Statement coverage of the modelled functions: only '
-              'the def/decorator lines (executed at import time, before measurement starts) are never hit; main.py:67 (binary plugin '
-              'skipped for a text handle) is reached with a stub plugin registered by the harness; sugar/_io/tab/core.py is modelled but '
-              'not an anchored file, so its coverage is not reported. All theorems closed under the global context (no axioms).')
+              'def/decorator lines (executed at import) are never hit; main.py:67 is reached with a stub binary plugin; '
+              'sugar/_io/tab/core.py is modelled but not an anchored file. All theorems closed under the global context (no axioms).')
 TECHNIQUE = 'Coq proof over an executable model + regenerated tables + differential correspondence + relational transport testing'
